@@ -474,6 +474,11 @@ class Check(PropertyCheck):
                   "(+ resumes_are_arrivals), emitted_never_blocking_true, replay_sequential (the __continue loop handles "
                   "the buffered events one by one in order, each by the handler applied to the state left by the previous "
                   "one, the rest stays queued in order and only if the layer paused again), "
+                  "sequential_blocking_equivalence (+ interleaving_irrelevant: for every schedule the arrivals split, order "
+                  "kept, into events and own completions, and a sequential blocking reference interpreter fed those events "
+                  "and the replies in order ends in EXACTLY the layer's state, suspended generator, full trace of "
+                  "_handle_event calls / emits / pauses / resumes-with-values, total command output, with the unstarted "
+                  "events = _paused_event_queue; hence the outcome is independent of the interleaving), "
                   "child_block_does_not_block_parent, parent_pauses_only_on_own_commands, children_step / "
                   "children_invariant (a parent touches its children only through handle_event, also via a suspended "
                   "generator), tree_step / tree_every_layer_in_order (layer trees of ARBITRARY depth and branching with "
@@ -481,7 +486,12 @@ class Check(PropertyCheck):
                   "arrivals; induction over the schedule and over the tree), nextlayer_replay_in_order (for any child "
                   "handler), nextlayer_child_invariant / nextlayer_tree_in_order (the chosen layer — e.g. a whole tree — is "
                   "only ever driven through its handle_event during buffering, replay, forwarding through the re-bound "
-                  "_handle_event and after the swap, so it keeps every invariant handle_event preserves). Model = Layer.handle_event/__process/__continue, parent relays via "
+                  "_handle_event and after the swap, so it keeps every invariant handle_event preserves), nextlayer_transparent "
+                  "(the chosen layer's whole configuration equals the one it would have had if driven directly with the "
+                  "events it was passed = arrivals minus consumed hook completions, order kept) and nextlayer_child_sequential; "
+                  "the `_any` forms (nextlayer_replay_in_order_any, nextlayer_child_invariant_any, nextlayer_transparent_any) drop "
+                  "the former hypothesis that the candidate child has received nothing yet; all_output_never_blocking_true is "
+                  "the whole-history form of emitted_never_blocking_true. Model = Layer.handle_event/__process/__continue, parent relays via "
                   "`yield from child.handle_event`, NextLayer._handle_event/_ask/handle_event incl. the hand-over. Tie: "
                   "generated handler programs (with handler re-binding actions) run on real Layer subclasses arranged in "
                   "random trees (<=8 layers, height <=4, branching <=3) behind an optional real NextLayer and in the compiled "
@@ -496,9 +506,10 @@ class Check(PropertyCheck):
                   "next event is delivered (what proxy/server.py does); the addon's next-layer decision is modelled as "
                   "part of the hook's reply; proxy_debug logging (Layer.debug, off by default) is not modelled; ghost fields "
                   "log/arrived of the model carry the theorems' vocabulary; the tie is differential (random programs/trees x "
-                  "random/exhaustive schedules), not a proof about the Python text. Not proved: an end-to-end equivalence "
-                  "with a sequential blocking interpreter (the 'looks like blocking code' reading) — replay_sequential "
-                  "covers the replay loop, handled_eq_arrivals the order, but the two are not composed into one theorem. "
+                  "random/exhaustive schedules), not a proof about the Python text. The blocking-code reading is now a theorem "
+                  "(sequential_blocking_equivalence); its reference interpreter `seq` is a Lean definition (trusted as the "
+                  "meaning of 'sequential blocking code': one handler at a time via `run`, i-th blocking command answered by "
+                  "the i-th reply), not tied to Python separately. "
                   "Abstain branches of the harness: a schedule step that names a command when none was emitted/pending "
                   "delivers nothing on both sides ('skip' token, compared); primitive ops whose precondition fails "
                   "(process while paused, continue while idle) are skipped on both sides; no case is ever dropped "
